@@ -1,6 +1,8 @@
 package ntsx
 
 import (
+	"github.com/miscreant/miscreant.go"
+
 	"encoding/binary"
 	"fmt"
 	"strings"
@@ -228,4 +230,38 @@ func NoCrash(c *lib.Ctx, op, ans, what string) {
 		cls := strings.ReplaceAll(ans, " ", ":")
 		c.Fail("crash:"+strings.Fields(op)[0]+":"+cls, what+": "+ans, []string{op}, map[string]any{"answer": ans})
 	}
+}
+
+// ---------------------------------------------------------------- a foreign (possibly hostile) peer's encoder
+
+// RawField is an extension field with the given type, the value padded to 4 bytes.
+func RawField(typ int, value []byte) []byte {
+	n := pad4(len(value))
+	f := make([]byte, 4+n)
+	binary.BigEndian.PutUint16(f, uint16(typ))
+	binary.BigEndian.PutUint16(f[2:], uint16(4+n))
+	copy(f[4:], value)
+	return f
+}
+
+// ForeignPacket builds an authenticated NTS packet the way another implementation could: header,
+// arbitrary raw extension fields, then an authenticator sealing pt under key over all preceding
+// bytes (real AEAD library). Nothing of net/nts is used.
+func ForeignPacket(hdr []byte, fields [][]byte, key, nonce, pt []byte) []byte {
+	b := append([]byte(nil), hdr...)
+	for _, f := range fields {
+		b = append(b, f...)
+	}
+	a, err := miscreant.NewAEAD("AES-CMAC-SIV", key, len(nonce))
+	if err != nil {
+		panic(err)
+	}
+	ct := a.Seal(nil, nonce, pt, b)
+	body := make([]byte, 4)
+	binary.BigEndian.PutUint16(body, uint16(len(nonce)))
+	binary.BigEndian.PutUint16(body[2:], uint16(len(ct)))
+	body = append(body, nonce...)
+	body = append(body, make([]byte, pad4(len(nonce))-len(nonce))...)
+	body = append(body, ct...)
+	return append(b, RawField(0x404, body)...)
 }
